@@ -230,6 +230,7 @@ func rulesC06(e *Engine, r *Report) {
 		r.Min("R06.4", "receive logger constructions in main", n, 1)
 	}
 
+	r.Rule("R06.14", "a parked file is recovered under its own record: Recover takes a companion for the description of the parked (.wait) file next to it - name, hash and size go into the cache as validated and from there into the receive log - only when no newer version is in progress there (neither <base>.part nor <base>.full exists) or the parked file's MD5 equals the companion's hash; a helper's verdict counts only if the helper is shown to say `described` under exactly those conditions and `superseded` only when a newer version is in progress (while version 2 of a parked file was being received the companion was version 2's: after a restart version 1's bytes were delivered and logged under version 2's hash and size, and the sender was told version 2 had arrived)")
 	// ---------------------------------------------------------------- R06.5
 	r.Rule("R06.5", "the recovery case split is exhaustive and exact: per companion Recover looks for every extension that is a rename/create target in package stage ({.wait, .full, .part}) and the bare name; .wait → finalize list only; .full → validate list; a .part or bare file → validate list only if its companion is complete and the rename to .full succeeded; the companion is removed only when none of the four exists; an incomplete partial is left untouched")
 	if top := needFn(e, r, "R06.5", "stage.(*Stage).Recover"); top != nil {
@@ -256,6 +257,8 @@ func rulesC06(e *Engine, r *Report) {
 				C(`(call(filepath.Ext)(p0) == ".cmp")`, "isCmp"),
 				C("(call(stage.readLocalCompanion)(p0, §)#1 == nil)", "cmpRead"),
 			)
+			helpers := e.parkedHelpers()
+			ls = append(ls, e.parkedLabels(base, cmpv, helpers)...)
 			cls := labeler(ls...)
 			// extensions that are rename/create targets in package stage
 			targets := map[string]bool{}
@@ -288,11 +291,22 @@ func rulesC06(e *Engine, r *Report) {
 				r.Check(found, "R06.5", "stage.(*Stage).Recover: examines <base>"+x, e.Pos(cl.Pos()),
 					"package stage can leave a file with extension "+x+" behind, but Recover never looks for it: after a crash in that state the file is stranded", 1, "os.Stat(<base>"+x+")")
 			}
-			// appends
+			// appends: the list whose members Recover enters as validated and hands to
+			// the finalize chain is the `finalize` list, whatever it is called
+			finalName := ""
+			finalRe := regexp.MustCompile(`^call\(stage\.\(\*Stage\)\.toCache\)\(p0, call\(stage\.\(\*Stage\)\.partialToFinal\)\(p0, var\((\w+)\)\[.*\]\), ` + regexp.QuoteMeta(sc.validated) + `\)$`)
+			Instrs(top, func(in ssa.Instruction) {
+				if m := finalRe.FindStringSubmatch(e.InstrStr(in)); m != nil {
+					finalName = m[1]
+				}
+			})
+			if finalName == "" {
+				r.Unresolved("R06.5", "the list Recover enters as validated (toCache(partialToFinal(<list>[i]), validated))")
+			}
 			nv, nf := 0, 0
-			for _, in := range e.findInstrs(cl, "store(^&var(«(validate|finalize)») = builtin(append)(§))", false) {
+			for _, in := range e.findInstrs(cl, "store(^&var(«\\w+») = builtin(append)(§))", false) {
 				str := e.InstrStr(in)
-				if strings.HasPrefix(str, "store(^&var(finalize)") {
+				if strings.HasPrefix(str, "store(^&var("+finalName+")") {
 					nf++
 					e.Guarded(r, "R06.5", fmt.Sprintf("%s: append to finalize #%d", e.ShortName(cl), nf), cl, only(in), cls,
 						func(l LabelSet) bool { return l.HasAll("isCmp", "cmpRead", "has.wait") }, "<base>.wait exists")
@@ -300,19 +314,36 @@ func rulesC06(e *Engine, r *Report) {
 					nv++
 					e.Guarded(r, "R06.5", fmt.Sprintf("%s: append to validate #%d", e.ShortName(cl), nv), cl, only(in), cls,
 						func(l LabelSet) bool {
-							if !l.HasAll("isCmp", "cmpRead", "no.wait") {
+							if !l.HasAll("isCmp", "cmpRead") || !l.HasAny("no.wait", "superseded", "hashNe") {
 								return false
 							}
 							return l.Has("has.full") ||
 								l.HasAll("no.full", "has.part", "complete", "partPromoted") ||
 								l.HasAll("no.full", "no.part", "has", "complete", "barePromoted")
-						}, "no .wait, and (.full exists | complete .part renamed to .full | complete bare file renamed to .full)")
+						}, "no .wait (or a .wait that a newer version in progress has superseded), and (.full exists | complete .part renamed to .full | complete bare file renamed to .full)")
 				}
 			}
+			// R06.14 (filed below): the companion describes the parked file
+			for _, h := range helpers {
+				r.Check(h.Sound, "R06.14", e.ShortName(h.Fn)+": the verdict `companion describes the parked file` can be relied on", e.Pos(h.Fn.Pos()),
+					strings.Join(h.Facts, "; "), 2, h.Facts...)
+			}
+			nd := 0
+			for _, in := range e.findInstrs(cl, "store(^&var("+finalName+") = builtin(append)(§))", false) {
+				nd++
+				e.Guarded(r, "R06.14", fmt.Sprintf("%s: append to finalize #%d: the companion describes the parked file", e.ShortName(cl), nd), cl, only(in), cls,
+					func(l LabelSet) bool { return l.Has("described") || l.HasAll("no.part", "no.full") },
+					"neither <base>.part nor <base>.full exists, or MD5(<base>.wait) == companion hash")
+			}
+			r.Min("R06.14", "appends to the finalize list", nd, 1)
 			r.Min("R06.5", "appends to the finalize list", nf, 1)
 			r.Min("R06.5", "appends to the validate list", nv, 3)
 			nrm := e.Guarded(r, "R06.5", e.ShortName(cl)+": os.Remove(companion)", cl, e.instrMatch("call(os.Remove)(p0)"), cls,
-				func(l LabelSet) bool { return l.HasAll("isCmp", "no.wait", "no.full", "no.part", "no") }, "none of .wait/.full/.part/bare exists")
+				func(l LabelSet) bool {
+					// `superseded` comes only from a helper shown to answer so only when .part or .full exists:
+					// together with no.full and no.part that path is infeasible
+					return l.HasAll("isCmp", "no.full", "no.part", "no") && l.HasAny("no.wait", "superseded")
+				}, "none of .wait/.full/.part/bare exists")
 			r.Min("R06.5", "orphan companion removals", nrm, 1)
 			var others []string
 			for _, in := range e.findInstrs(cl, "call(os.«(Remove|RemoveAll|Rename|Truncate|Create|WriteFile|OpenFile)»)§", false) {
